@@ -149,22 +149,28 @@ Theorem glue_dt_sub_datetime self other :
   glue_DateTime___sub___datetime self other = bind (norm_operand self other) (fun o => glue_Interval_new_delta o self false).
 Proof.
   unfold glue_DateTime___sub___datetime, glue_DateTime_diff_delta, norm_operand, is_none.
-  crush.
+  crush; repeat match goal with H : match ?x with Ok _ => _ | Raise _ => _ end = _ |- _ => destruct x; try congruence end.
 Qed.
 
 Theorem glue_dt_rsub self other :
   glue_DateTime___rsub__ self other = bind (norm_operand self other) (fun o => glue_Interval_new_delta self o false).
 Proof.
   unfold glue_DateTime___rsub__, glue_DateTime_diff_delta, norm_operand, is_none.
-  crush.
+  crush; repeat match goal with H : match ?x with Ok _ => _ | Raise _ => _ end = _ |- _ => destruct x; try congruence end.
 Qed.
 
 Theorem glue_date_diff self dt abs :
   glue_Date_diff_delta self dt abs = bind (o_pdate_new (o_year dt) (o_month dt) (o_day dt)) (fun d => glue_Interval_new_delta self d abs).
-Proof. unfold glue_Date_diff_delta. crush. Qed.
+Proof. unfold glue_Date_diff_delta.
+  crush; repeat match goal with H : match ?x with Ok _ => _ | Raise _ => _ end = _ |- _ => destruct x; try congruence end.
+Qed.
 
 Theorem glue_date_sub_date self other :
   glue_Date___sub___date self other =
   bind (o_pdate_new (o_year other) (o_month other) (o_day other)) (fun d =>
   bind (o_pdate_new (o_year self) (o_month self) (o_day self)) (fun s => glue_Interval_new_delta d s false)).
-Proof. unfold glue_Date___sub___date, glue_Date_diff_delta. crush. Qed.
+Proof.
+  unfold glue_Date___sub___date. destruct (o_pdate_new (o_year other) (o_month other) (o_day other)) as [d|x]; cbn [bind]; [|reflexivity].
+  cbv zeta. rewrite glue_date_diff. destruct (o_pdate_new (o_year self) (o_month self) (o_day self)) as [s|x]; cbn [bind]; [|reflexivity].
+  destruct (glue_Interval_new_delta d s false); reflexivity.
+Qed.
